@@ -159,6 +159,11 @@ def directed():
         out.append(dict(base, id="D-linger-close-%d" % k, steps=[
             {"op": "start", "m": 1, "fns": 2, "linger": 400, "early": 0 if cause else 1, "ms": 150}, {"op": "sleep", "ms": 200}] + cause + [
             {"op": "sleep", "ms": 60}, {"op": "stop", "m": 1}, {"op": "sleep", "ms": 500}]))
+    # the handshake completes while nobody is in Next; Next is called a long time later: the generation is live all the while
+    # (heartbeats flow from the moment it exists, not from the moment Next picks it up)
+    out.append(dict(base, id="D-late-next", steps=[
+        {"op": "hold", "gate": "app:beforenext:1"}, {"op": "start", "m": 1, "fns": 1}, {"op": "sleep", "ms": 3300},
+        {"op": "release", "gate": "app:beforenext:1"}, {"op": "sleep", "ms": 300}, {"op": "stop", "m": 1}]))
     rb = {"mode": "reader", "topics": {"t": 2}, "records": 6, "startOffset": -2, "commitIntervalMs": 0, "heartbeatMs": 20, "backoffMs": 60,
           "watch": False, "drain": True}
     # two members, rebalance in the middle of consumption, sync commits
